@@ -228,6 +228,28 @@ Theorem c03_client_authenticate_source_facts :
   /\ last Skeleton.SRC_GET_ASSERTION "" = "Sign")%string.
 Proof. vm_compute. repeat split. Qed.
 
+(** *** the stored private scalar: which stored octet strings are a usable key, and which integer signs
+
+    [keymat.k_d] is "the scalar when present and well formed" ([Auth.Scalar], the reading of [SecretKey::from_slice]); the
+    correspondence hands the model the D parameter as stored and the model normalises it with [scalar_of_stored].  A
+    well-formed scalar has 24 to 32 octets, the ceremonies see its 32-octet form, and that form denotes the SAME integer
+    (padding is on the left) - so the key that signs is the one whose public point the relying party holds; everything
+    else (shorter, longer, zero, the group order and above, absent) is an unusable credential. *)
+Theorem c03_stored_scalar_well_formed : forall d s, scalar_well_formed d = Some s ->
+  List.length s = 32%nat /\ scalar_be 0 s = scalar_be 0 d /\ (0 < scalar_be 0 s < p256_order)%N /\ (24 <= List.length d <= 32)%nat.
+Proof. exact scalar_well_formed_spec. Qed.
+Theorem c03_stored_scalar_refused : forall d,
+  ((List.length d < 24)%nat \/ (32 < List.length d)%nat \/ scalar_be 0 d = 0%N \/ (p256_order <= scalar_be 0 d)%N) <-> scalar_well_formed d = None.
+Proof. exact scalar_refused. Qed.
+Theorem c03_stored_scalar_normal_form : forall d s, scalar_well_formed d = Some s -> scalar_well_formed s = Some s.
+Proof. exact scalar_well_formed_idempotent. Qed.
+(** an unusable scalar is an error of the ceremony, never a signature *)
+Theorem c03_unusable_key_is_an_error : forall k, scalar_of_stored None = None /\
+  (k_d k = None -> k_es256 k = true -> k_ec2 k = true -> private_key k = Err CTAP2_InvalidCredential).
+Proof.
+  intros k. split; [reflexivity|]. intros Hd H1 H2. unfold private_key. rewrite H1, H2, Hd. reflexivity.
+Qed.
+
 Print Assumptions c03_run_shape.
 Print Assumptions c03_signature.
 Print Assumptions c03_verifies.
@@ -246,3 +268,7 @@ Print Assumptions c03_history_verifies.
 Print Assumptions c03_client_authenticate_in_source_order.
 Print Assumptions c03_client_authenticate_source_is_the_modelled_one.
 Print Assumptions c03_client_authenticate_source_facts.
+Print Assumptions c03_stored_scalar_well_formed.
+Print Assumptions c03_stored_scalar_refused.
+Print Assumptions c03_stored_scalar_normal_form.
+Print Assumptions c03_unusable_key_is_an_error.
